@@ -192,6 +192,30 @@ def run(m, chk):
             if isinstance(v, ast.Call) and seg(v) in ("tuple()", "()") or isinstance(v, ast.Tuple) and not v.elts:
                 continue
             ok = any(ctx.cfg.dominates(f, R_.id) for f in fnodes)
+            if not ok:
+                # every definition that can flow into the returned expression (through plain local copies) is the empty
+                # answer or is computed after the filter
+                def empty(e):
+                    return (isinstance(e, ast.Call) and seg(e) in ("tuple()", "()")) or (isinstance(e, ast.Tuple) and not e.elts)
+
+                def flows_ok(name, before, depth=0):
+                    dfs = [n for n in r.stmt_nodes(ctx) if isinstance(n.ast, ast.Assign) and any(isinstance(t, ast.Name) and t.id == name for t in n.ast.targets) and before in ctx.cfg.reachable_from_succ(n.id, exc=False)]
+                    if not dfs or depth > 4:
+                        return False
+                    # only the definitions not overwritten on the way: keep those from which `before` is reachable avoiding the others
+                    live = [n for n in dfs if before in ctx.cfg.reachable_from_succ(n.id, exc=False, avoid={m_.id for m_ in dfs if m_ is not n})]
+                    for n in live or dfs:
+                        val = n.ast.value
+                        if empty(val) or any(ctx.cfg.dominates(f, n.id) for f in fnodes):
+                            continue
+                        if isinstance(val, ast.Name) and flows_ok(val.id, n.id, depth + 1):
+                            continue
+                        return False
+                    return True
+
+                names = [x.id for x in ast.walk(v) if isinstance(x, ast.Name) and isinstance(x.ctx, ast.Load) and x.id not in ("heavy", "tuple", "np")] if v is not None else []
+                cand = [nm for nm in names if any(isinstance(n.ast, ast.Assign) and any(isinstance(t, ast.Name) and t.id == nm for t in n.ast.targets) for n in r.stmt_nodes(ctx))]
+                ok = bool(cand) and all(flows_ok(nm, R_.id) for nm in cand)
             chk.ob("FILTER", f"{q}: `{seg(R_.ast, 40)}` only after filter_pairs", ok, loc=r.loc(ctx, R_.ast), detail="" if ok else f"{q}: pairs are returned at {r.loc(ctx, R_.ast)} without passing the duplicate filter: the same crossing found from several starts is reported several times", func=q, construct="duplicate filter skipped")
     r.pure("PURE", I + "curve_and_curve", ["curvea", "curveb"])
     r.pure("PURE", I + "bcurve_and_bcurve", ["beziera", "bezierb"])
